@@ -4,13 +4,15 @@
  *  kind 0  EXACT   inputs on which every operation of the factorization, of the solve and of the determinant is exact in any
  *                  binary type with >= 24 bits, so the judge is ==:
  *                    plu: A = Q L0 U0, L0 unit lower with multipliers k/4, |k| <= 3 (|l| < 1: the pivot of every column is unique),
- *                         U0 integer, |u| <= 4, Q a random row permutation  ->  stored factors == L0\U0, p == Q^-1, sign == parity
- *                    ldl: A = L0 D0 L0^T, L0 integer unit lower |l| <= 2, D0 integer 1 <= |d| <= 4  ->  stored == L0, D0
+ *                         U0 integer, |u| <= 4, u_ii in +-{1,2,4}, Q a random row permutation  ->  stored factors == L0\U0, p == Q^-1, sign == parity
+ *                    ldl: A = L0 D0 L0^T, L0 integer unit lower |l| <= 2, D0 in +-{1,2,4}  ->  stored == L0, D0
  *                    llt: A = L0 L0^T, L0 integer, diagonal in {1,2,4}, |l| <= 2         ->  stored == L0 (sqrt of 1,4,16)
  *                  b = A x0 with integer |x0| <= 4: solve == x0; det == the integer determinant; for n <= 4 (multipliers k/2, pivots
  *                  +-1,+-2 (plu, llt) or +-1,+-2,+-4 (ldl)) the inverse and both sweeps of every column are dyadic: A X == I exactly.
+ *                  EVERY DIVISOR (u_ii, d_i, l_ii) IS A POWER OF TWO: the property does not fix how a quotient is formed, and a * fl(1/u) is the
+ *                  exact quotient only when 1/u is representable; products are of integers / dyadics, exact in either association.
  *                  Exactness (worst case over the generator, n <= 12): factorization, b and the sweeps of the solve are multiples of
- *                  1/4 below 2^14 (16 bits); determinants are 2^a 3^b with b <= 12 (3^12 < 2^24), llt: powers of two; the n <= 4
+ *                  1/4 below 2^14 (16 bits); determinants are powers of two up to sign; the n <= 4
  *                  inverse sweeps are multiples of 2^-7 below 2^7 (plu), of 1/4 below 2^9 (ldl), of 2^-8 below 2^9 (llt): <= 17 bits.
  *  kind 1  ROUNDED full-mantissa random entries of the working type (rows/columns scaled by 2^+-12 at most): componentwise
  *                  bounds with u = A_REAL_EPSILON/2, gamma_k = k u/(1-k u), safety factor c = 4 (same forms as h_linalg_fact.c):
@@ -22,9 +24,10 @@
  *                    by UFS = eta n (1+max|pivot|)^2, eta = A_REAL_MIN*A_REAL_EPSILON (it never matters on these inputs).
  *                  Residuals in __float128: the oracle's own rounding is 2^-113 per operation, < 2^-45 of any tolerance here.
  *  kind 2  FAIL    pivot exactly 0 (<= 0 for llt) BY CONSTRUCTION: kind-0 matrix with one u_kk / d_k zeroed or one Cholesky pivot
- *                  lowered to -m, a zero column, (2^k-scaled) duplicated rows, zero matrix, non-positive leading entry -> failure.
+ *                  lowered to -m, a zero column, 2^k-multiple rows (general pivot, and meeting at a pivot +-2^K: see gen), zero matrix,
+ *                  non-positive leading entry -> failure.
  *  kind 3  RANGE   no arithmetic happens, but the pivots are normal numbers ANYWHERE in the range of the working type (2^k,
- *                  MIN_EXP-1 <= k, including A_REAL_MIN itself): permutation / diagonal / row-scaled upper triangular (plu), diagonal
+ *                  MIN_EXP-1 <= k, including A_REAL_MIN itself): permutation / diagonal / row-scaled upper triangular with diagonal +-2^k (plu), diagonal
  *                  (ldl, llt 2^2k) -> success, stored factors == the (row-permuted) input resp. 2^k, solve == x0, inverse exact,
  *                  lndet and sgndet as above.  A threshold, an abs() or a constant of another width shows here.
  *  On success always: p is a permutation, sign == parity(p), |l| <= 1 (plu), diagonal > 0 (llt), pivots non-zero; P, P_, L, U, D
@@ -40,6 +43,27 @@
 #include <quadmath.h>
 #include <math.h>
 typedef __float128 q_t;
+/* Configurations fenv-exact-f32 / -f80 / -f32-fma (-DVF_FENV_ROTATE: vf_common.h runs every case under one of FE_DOWNWARD / FE_TOWARDZERO /
+ * FE_UPWARD / FE_TONEAREST).  Only what needs no rounding argument is judged there (see "configurations fenv-exact" in h_linalg_fact.c):
+ *   kind 2 (FAIL) in full - the pivot vanishes exactly whatever the rounding direction: zeroed u_kk / d_k and lowered Cholesky pivot on
+ *     dyadic data (every intermediate a multiple of 1/4 below 2^14), zero column / matrix / leading entry (no rounded operation involved),
+ *     2^k-multiple rows (both rows receive the same operations on exactly 2^k-scaled operands, every IEEE operation commutes with an exact
+ *     scaling in every mode, then a/a' = 2^k and a - a'*2^k = +-0; two cases in three meet at a power-of-two pivot);
+ *   kinds 0 (EXACT) and 3 (RANGE) in full except lndet - every operation of factorization, sweeps, solve, inverse (n <= 4) and determinant
+ *     has an exactly representable result (header above), and an IEEE operation whose exact result is representable returns it in every mode;
+ *   kind 1 (ROUNDED): shape (p a permutation, sign == parity, |l| <= 1 under FE_TONEAREST / FE_TOWARDZERO - a * fl(1/b) can be 1 + eps when
+ *     both roundings go away from zero -, pivots non-zero, Cholesky diagonal > 0), extraction == stored and sgndet only.
+ * NOT judged (w-fenv-skipped-inexact-clause): reconstruction / solve / sweep-chain / inverse-column bounds, det against the quad product and
+ * lndet (libm log and the __float128 reference both follow the rounding mode; the bounds are stated for u = eps/2, round-to-nearest). */
+#ifdef VF_FENV_ROTATE
+static void fx_mode_count(char const *what)
+{
+    char nm[56];
+    int const m = fegetround();
+    snprintf(nm, sizeof(nm), "%s-%s", what, m == FE_DOWNWARD ? "FE_DOWNWARD" : m == FE_UPWARD ? "FE_UPWARD" : m == FE_TOWARDZERO ? "FE_TOWARDZERO" : "FE_TONEAREST");
+    vf_count_dyn(nm, 1);
+}
+#endif
 #if A_REAL_TYPE + 0 == A_REAL_SINGLE
 #define W "f32"
 #elif A_REAL_TYPE + 0 == A_REAL_EXTEND
@@ -232,7 +256,7 @@ static void gen(job_t *j, vf_rng *r)
                 for (unsigned k = i; k < n; ++k)
                 {
                     int v = (int)vf_range(r, -3, 3);
-                    if (k == i && v == 0) { v = 2; }
+                    if (k == i) { v = (vf_chance(r, 1, 2) ? -1 : 1) * (1 << vf_below(r, 2)); } /* the divisor of row i is +-2^e or +-2^(e+1) */
                     A[IX(i, k)] = EF[IX(i, k)] = (a_real)v * s;
                 }
             }
@@ -247,7 +271,7 @@ static void gen(job_t *j, vf_rng *r)
             L[IX(i, k)] = fam != PLU ? (q_t)vf_range(r, -2, 2) : small ? (q_t)vf_range(r, -1, 1) / 2 : (q_t)vf_range(r, -3, 3) / 4;
         }
         L[IX(i, i)] = fam != LLT ? 1 : (q_t)(1 << vf_below(r, small ? 2 : 3));
-        d[i] = isgn(r) * (small ? (q_t)(1 << vf_below(r, fam == LDL ? 3 : 2)) : (q_t)vf_range(r, 1, 4));
+        d[i] = isgn(r) * (q_t)(1 << vf_below(r, small && fam != LDL ? 2 : 3)); /* +-1, +-2 (, +-4): EVERY divisor is a power of two, so a * fl(1/d) == a / d */
         U[IX(i, i)] = d[i];
         for (unsigned k = i + 1; k < n; ++k) { U[IX(i, k)] = small ? (q_t)vf_range(r, -2, 2) : (q_t)vf_range(r, -4, 4); }
     }
@@ -300,8 +324,19 @@ static void gen(job_t *j, vf_rng *r)
     }
     else if (j->sub == 2 && fam == PLU && n >= 2) /* row b = 2^k row a */
     {
+        /* named by the property ("duplicated rows ... are reported as failure"): must fail whatever the pivot at which the two rows meet (division
+           cancels them exactly: a/a = 1, operations on 2^k-scaled operands commute with the scaling; an implementation with fl(a * fl(1/a)) != 1
+           breaks that sentence).  Two cases in three additionally make the meeting step a division by a power of two: the rows are 0 before
+           column c0 <= n-2 and +-2^K there, 2^K >= 8 * 2^c0 > 4 * 2^c0 * max|entry| (entries < 1.0000001, partial pivoting at most doubles the
+           largest entry per step), so they are neither chosen nor changed before step c0 and one of them is its pivot. */
         unsigned const a = kz, b = (kz + 1 + (unsigned)vf_below(r, n - 1)) % n;
         a_real const s = p2((int)vf_range(r, -3, 3));
+        if (!vf_chance(r, 1, 3))
+        {
+            unsigned const c0 = (unsigned)vf_below(r, n - 1);
+            for (unsigned k = 0; k < c0; ++k) { A[IX(a, k)] = 0; }
+            A[IX(a, c0)] = (a_real)isgn(r) * p2((int)c0 + 3);
+        }
         for (unsigned k = 0; k < n; ++k) { A[IX(b, k)] = A[IX(a, k)] * s; }
     }
     else if (j->sub == 2 && fam != PLU) /* non-positive (llt) / zero (ldl) leading entry */
@@ -358,6 +393,10 @@ static void run(job_t *j, vf_rng *r)
     if (j->expect == 2)
     {
         cnt(fam, "-exactly-singular-reports-failure");
+#ifdef VF_FENV_ROTATE
+        vf_count_dyn("w-fenv-exact-failure-class-judged", 1);
+        fx_mode_count("w-fenv-failure-judged");
+#endif
         if (ret == A_SUCCESS) { viol(fam, "", "success-on-exactly-vanishing-pivot", "a_real_%s n=%u (%s, variant %u) returned success on an input whose pivot is exactly zero / non-positive by construction", fam_name[fam], n, kind_name[j->kind], j->sub); }
         goto done;
     }
@@ -387,6 +426,9 @@ static void run(job_t *j, vf_rng *r)
         if (!(fam == LLT ? pv > 0 : pv != 0) || !(pv - pv == 0)) { viol(fam, "", fam == LLT ? "diagonal-not-positive" : "pivot-zero-or-non-finite", "n=%u: stored pivot %u = %.9Lg after reported success", n, i, (long double)pv); goto done; }
         for (unsigned k = 0; k < i && fam == PLU; ++k)
         {
+#ifdef VF_FENV_ROTATE /* a * fl(1/b) can be 1 + eps when both roundings go away from zero: judged under round-to-nearest / toward zero only */
+            if (fegetround() == FE_UPWARD || fegetround() == FE_DOWNWARD) { continue; }
+#endif
             if (!(F[IX(i, k)] <= 1 && F[IX(i, k)] >= -1)) { viol(fam, "", "multiplier-gt-1", "n=%u: l[%u][%u] = %.9Lg", n, i, k, (long double)F[IX(i, k)]); goto done; }
         }
         if (fabsq((q_t)pv) > dmax) { dmax = fabsq((q_t)pv); }
@@ -405,6 +447,10 @@ static void run(job_t *j, vf_rng *r)
     if (j->has_ef)
     {
         cnt(fam, "-exact-factors");
+#ifdef VF_FENV_ROTATE
+        vf_count_dyn("w-fenv-exact-factorization-judged", 1);
+        fx_mode_count("w-fenv-factorization-judged");
+#endif
         for (unsigned i = 0; i < n; ++i)
         {
             for (unsigned k = 0; k < (fam == PLU ? n : i + 1); ++k)
@@ -427,7 +473,12 @@ static void run(job_t *j, vf_rng *r)
                 if (ra > worst || !(ra == ra)) { worst = ra; }
             }
         }
+#ifndef VF_FENV_ROTATE /* a rounding-error bound: not judged under a rotated rounding mode */
         if (j->kind == K_ROUNDED)
+#else
+        (void)worst;
+        if (0)
+#endif
         {
             cnt(fam, "-reconstruction-bound");
             mx(fam, "-reconstruction-ratio", worst);
@@ -459,6 +510,25 @@ static void run(job_t *j, vf_rng *r)
         free(Fx);
         if (bad) { viol(fam, bad, "ne-stored-factor", "a_real_%s%s n=%u: an entry of the extracted matrix differs from the stored factor / permutation", fam_name[fam], bad, n); goto done; }
     }
+#ifdef VF_FENV_ROTATE
+    if (j->kind == K_ROUNDED)
+    {
+        /* rotated rounding mode: shape and extraction (above) and sgndet are judged; reconstruction, solve, sweep chains (4 forms), inv, inv_,
+           det and lndet are rounding-error bounds */
+        vf_count_dyn("w-fenv-shape-only-kind-judged", 1);
+        vf_count_dyn("w-fenv-skipped-inexact-clause", 7);
+        if (fam != LLT)
+        {
+            int psgn = fam == PLU ? sign : 1;
+            int const sgn = fam == PLU ? a_real_plu_sgndet(n, F, sign) : a_real_ldl_sgndet(n, F);
+            ++vf.evals;
+            for (unsigned i = 0; i < n; ++i) { if (F[IX(i, i)] < 0) { psgn = -psgn; } }
+            cnt(fam, "_sgndet-vs-pivot-signs");
+            if (sgn != psgn) { viol(fam, "_sgndet", "ne-sign-of-pivot-product", "n=%u: sgndet = %d, sign * product of the signs of the stored pivots is %d", n, sgn, psgn); }
+        }
+        goto done;
+    }
+#endif
     /* ---- solve */
     for (unsigned i = 0; i < n; ++i)
     {
@@ -621,6 +691,10 @@ static void run(job_t *j, vf_rng *r)
         if (bad) { goto done; }
     }
     /* ---- inverse, both variants */
+#ifdef VF_FENV_ROTATE
+    if (!j->exact_inv) { vf_count_dyn("w-fenv-skipped-inexact-clause", 2); } /* exact kind, n > 4: the inverse has entries k/3 - column bounds, not == */
+    else
+#endif
     if (j->exact_inv || j->kind <= K_ROUNDED)
     {
         if (fam == PLU) { a_real_plu_inv(n, F, p, tmp, X); a_real_plu_inv_(n, F, p, X2); }
@@ -684,6 +758,10 @@ static void run(job_t *j, vf_rng *r)
             mx(fam, "_det-ratio", ra);
             if (!(ra <= CSAFE)) { viol(fam, "_det", "ne-product-of-pivots", "n=%u: det = %.21Lg, quad product of the stored pivots %.21Lg (%.4g times the c=1 bound)", n, (long double)det, (long double)prod, ra); goto done; }
         }
+#ifdef VF_FENV_ROTATE
+        if (1) { vf_count_dyn("w-fenv-skipped-inexact-clause", 1); } /* lndet: libm log and logq follow the rounding mode */
+        else
+#endif
         {
             q_t ref = 0;
             for (unsigned i = 0; i < n; ++i) { ref += logq(fabsq((q_t)F[IX(i, i)])); }
